@@ -23,6 +23,7 @@ import signal
 import time
 from typing import Any, Optional
 
+from harness import translate_memo
 from harness.common import VERIF, MachineryError, Run, lean_check, use_repo
 from harness.gen import cons as G
 from harness.impl import cons as I
@@ -582,7 +583,10 @@ def main(tier: str) -> int:
     C02.quiet()
     load_known(run)
     REPORTED.clear()
+    memo = translate_memo.regenerate()
     lean = lean_check("Props.C11", [])
+    for r in memo["refusals"]:
+        lean.broken.append({"module": "Generated.MemoKey", "reason": "translator refused: " + r})
     install_wrappers()
     rng = run.rng("cases")
     t0 = time.time()
